@@ -157,7 +157,7 @@ struct Sys {
 static void buildSys(Sys& S, uint64_t base, bool withPrescription, int& nConsWanted) {
     vh::Rng gt(base + 11), gf(base + 23), gc(base + 37), gp(base + 41), go(base + 53);
     Model& M = S.M;
-    const int nBodies = 1 + gt.below(6);
+    const int nBodies = gt.below(10) == 0 ? 7 + gt.below(6) : 1 + gt.below(6);    // 1-6 bodies, one case in ten 7-12
     buildTree(M, gt, nBodies, fullPalette());
     // guaranteed share of RBNodeLoneParticle: forward Translation on Ground, identity frames, never a parent
     if (go.below(3) == 0) {
@@ -308,6 +308,7 @@ static void treeCase(uint64_t seed, long k) {
     vh::O("chk").i(1).emit();
     vh::D("chk." + cls + (A.euler ? ".euler" : ".quat"));
     tagBodies(M);
+    vh::D(std::string("nb.") + (nb - 1 <= 3 ? "1-3" : nb - 1 <= 7 ? "4-7" : "8-13"));
     if (A.loneParticle >= 0) vh::D("node.LoneParticle");
 
     // ---- state-level operations; the harness keeps its own record of what every lock must hold
